@@ -68,8 +68,8 @@ def msg_key_lib(m):
 class C04(Check):
     prop = "C04"
     quick_runs = 96
-    thorough_runs = 4000
-    run_wall = 150.0
+    thorough_runs = 3000
+    run_wall = 600.0
     rule = ("one run = a live node brought to Open, then a sequence of <= 40 uniquely tagged application messages and "
             "DWR/DWA sent by the scripted peer in bursts, each burst one byte stream cut at seeded offsets (incl. every "
             "byte, inside headers, on boundaries, coalesced) with seeded per-segment delays, under a seeded schedule of "
